@@ -8,6 +8,6 @@ CONSTANTS
   PLabels = {"a", "b", "c"}
   PDepth = 3
 SPECIFICATION Spec
-INVARIANTS TypeOK DiskIsASnapshot CrashLeavesSnapshot Converged NewestWins OneTemp
+INVARIANTS TypeOK DiskIsASnapshot SnapshotOnDisk CrashLeavesSnapshot Converged NewestWins LastPersistedExact OneTemp
 PROPERTIES NeverBackwards Terminates
 CHECK_DEADLOCK FALSE
